@@ -25,15 +25,15 @@ import (
 // ---- the world before the block ----
 
 type prodWorld struct {
-	height     base.Height
-	threshold  base.Threshold
-	members    []base.LocalNode // current suffrage
-	memberSt   []base.SuffrageNodeStateValue
-	sufHeight  base.Height
-	candidates []prodCandidate
-	states     map[string]base.State
+	height       base.Height
+	threshold    base.Threshold
+	members      []base.LocalNode // current suffrage
+	memberSt     []base.SuffrageNodeStateValue
+	sufHeight    base.Height
+	candidates   []prodCandidate
+	states       map[string]base.State
 	prevManifest base.Manifest
-	policy     isaac.NetworkPolicy
+	policy       isaac.NetworkPolicy
 }
 
 type prodCandidate struct {
@@ -46,11 +46,11 @@ type prodOp struct {
 	desc string
 	op   base.Operation
 	// facts for the C17 clauses
-	kind       string // join, candidate, disjoin, policy
-	target     base.Address
-	selfSigned bool // signed by the target's registered key
+	kind        string // join, candidate, disjoin, policy
+	target      base.Address
+	selfSigned  bool // signed by the target's registered key
 	memberSigns int  // distinct current members that signed with their registered key
-	startOK    bool
+	startOK     bool
 }
 
 func (w *prodWorld) getState(key string) (base.State, bool, error) {
@@ -289,17 +289,17 @@ func (f *prodFS) Cancel() error { return nil }
 // ---- one processing of the proposal ----
 
 type prodResult struct {
-	err       string
-	manifest  string
-	opsTree   string
-	stsTree   string
-	suffrage  string
-	sufValue  base.SuffrageNodesStateValue
+	err          string
+	manifest     string
+	opsTree      string
+	stsTree      string
+	suffrage     string
+	sufValue     base.SuffrageNodesStateValue
 	sufHeightNew base.Height
-	hasSuf    bool
-	fs        *prodFS
-	pp        *isaac.DefaultProposalProcessor
-	m         base.Manifest
+	hasSuf       bool
+	fs           *prodFS
+	pp           *isaac.DefaultProposalProcessor
+	m            base.Manifest
 }
 
 func (w *prodWorld) newProcessorArgs(r *simkit.Run, ops map[string]base.Operation, workersize int64, fs *prodFS, onMerge func()) *isaac.DefaultProposalProcessorArgs {
